@@ -33,6 +33,7 @@ SEEDS = [
 ]
 
 NEAR_VALID = {
+    'string_subscript': 'char a; const char tab[] = {1}; void main() { a = tab["s"]; }',
     'empty': '',
     'comment_only': '/* nothing */\n',
     'blank': '\n\n',
@@ -81,6 +82,51 @@ NEAR_VALID = {
 }
 
 OPTION_SETS = [['-O0'], ['-O1'], ['-O3', '--insert-code'], ['-O1', '-W', 'all'], ['-O1', '--fsigned_char'], ['-O1', '-D', 'N=1', '-D', 'FOO']]
+
+
+def stress_program(rng):
+    k = rng.randrange(8)
+    L = []
+    if k <= 2:
+        # many macros (around the multiples of 100), some undefined again, then used
+        n = rng.choice([99, 100, 101, 150, 199, 200, 201, 250])
+        for j in range(n):
+            L.append('#define M%d %d' % (j, j % 200))
+        und = sorted(rng.sample(range(n), rng.randrange(1, 4)))
+        for j in und:
+            L.append('#undef M%d' % j)
+        if rng.random() < 0.5:
+            L.append('#define EXTRA%d 7' % k)
+        use = [j for j in [0, 1, 98, 99, 100, 101, n - 2, n - 1] + rng.sample(range(n), 4) if j < n and j not in und]
+        L.append('unsigned char v;')
+        L.append('void main() { %s }' % ' '.join('v = M%d;' % j for j in use))
+    elif k == 3:
+        d = rng.choice([10, 40, 100])
+        L.append('unsigned char v;')
+        L.append('void main() { v = ' + '(' * d + '1' + ')' * d + '; }')
+    elif k == 4:
+        d = rng.choice([8, 20, 60])
+        L.append('unsigned char v;')
+        L.append('void main() { ' + 'if (v) { ' * d + 'v = 1; ' + '} ' * d + '}')
+    elif k == 5:
+        n = rng.choice([50, 130, 300])
+        for j in range(n):
+            L.append('void f%d() { X = %d; }' % (j, j % 256))
+        L.append('void main() { %s }' % ' '.join('f%d();' % j for j in rng.sample(range(n), 5)))
+    elif k == 6:
+        n = rng.choice([30, 120])
+        L.append('unsigned char v;')
+        for j in range(n):
+            L.append('#ifdef NOPE%d' % j if j % 2 else '#ifndef NOPE%d' % j)
+        L.append('unsigned char w;')
+        for j in range(n):
+            L.append('#endif')
+        L.append('void main() { v = 1; }')
+    else:
+        n = rng.choice([20, 101, 260])
+        L.append('const char *t[%d] = {%s};' % (n, ', '.join('"s%d"' % j for j in range(n))))
+        L.append('unsigned char v; void main() { v = %s; }' % ' + '.join(['1'] * rng.choice([5, 40, 120])))
+    return '\n'.join(L) + '\n'
 
 
 def mutate(rng, src):
@@ -169,6 +215,10 @@ def run(ctx):
         n = rng.randrange(0, 60)
         b = bytes(rng.randrange(256) for _ in range(n)) if rng.random() < 0.5 else ''.join(rng.choice('abc{}();=+-*/#"\'\\\n 01<>!&|') for _ in range(n)).encode()
         cases.append(('raw%d' % i, b, rng.choice(OPTION_SETS), 'bytes'))
+    # valid programs of unusual SIZE or SHAPE (resource boundaries inside the compiler: macro tables are
+    # kept in sets of 100, nesting depths, long lines, many functions / variables / literals)
+    for i in range(40 if quick else 1500):
+        cases.append(('stress%d' % i, stress_program(rng), rng.choice(OPTION_SETS), 'stress'))
     known = [f for f in ctx.findings if f.get('status') == 'open']
     stats = {}
     viol = []
